@@ -683,6 +683,64 @@ def syntax_defaults():
     return defn("syntax_error_defaults", "list (string * (Z * Z * string * option string))", coq_list(rows))
 
 
+THRESHOLD_VALIDATORS = ["src/linters/nesting/config.py", "src/linters/srp/config.py", "src/linters/dry/config.py", "src/linters/collection_pipeline/config.py"]
+
+
+def threshold_options():
+    """every integer-valued option of a linter command (click declarations: @click.option("--x", type=int, ...)) and the smallest value the
+    validators of the configuration classes accept for a threshold (`if v <= 0: raise ValueError` / `if v < 1: raise ValueError`)"""
+    rows = []
+    for m in LINTER_FILES:
+        rel = f"src/cli/linters/{m}.py"
+        for st in parse(rel).body:
+            if not isinstance(st, ast.FunctionDef):
+                continue
+            names = [const_value(d.args[0]) for d in st.decorator_list
+                     if isinstance(d, ast.Call) and ast.unparse(d.func) == "cli.command" and d.args]
+            for d in st.decorator_list:
+                if not (isinstance(d, ast.Call) and ast.unparse(d.func) == "click.option"):
+                    continue
+                ty = [k.value for k in d.keywords if k.arg == "type"]
+                if not ty or ast.unparse(ty[0]) not in ("int", "click.INT"):
+                    if ty and "IntRange" in ast.unparse(ty[0]):
+                        raise Unsupported(f"{rel}: {ast.unparse(d)[:80]}: click.IntRange is outside the model (click itself would reject values)")
+                    continue
+                flags = [const_value(a) for a in d.args if isinstance(a, ast.Constant) and str(a.value).startswith("--")]
+                if len(names) != 1 or len(flags) != 1:
+                    raise Unsupported(f"{rel}: integer option {ast.unparse(d)[:80]} on a function that is not exactly one command / has not exactly one long flag")
+                rows.append((names[0], flags[0]))
+    if len(rows) < 3:
+        raise Unsupported("fewer than three integer-valued command options found")
+    mins = set()
+    for rel in THRESHOLD_VALIDATORS:
+        found = 0
+        for fn in [n for n in ast.walk(parse(rel)) if isinstance(n, ast.FunctionDef) and (n.name == "__post_init__" or n.name.startswith("_validate"))]:
+            for node in ast.walk(fn):
+                if isinstance(node, ast.If) and isinstance(node.test, ast.Compare) and len(node.test.ops) == 1 and isinstance(node.test.comparators[0], ast.Constant) \
+                        and isinstance(node.test.comparators[0].value, int) and any(isinstance(x, ast.Raise) for x in node.body):
+                    op, k = node.test.ops[0], node.test.comparators[0].value
+                    if isinstance(op, ast.LtE):
+                        mins.add(k + 1)
+                    elif isinstance(op, ast.Lt):
+                        mins.add(k)
+                    else:
+                        raise Unsupported(f"{rel}: validator comparison {ast.unparse(node.test)}")
+                    found += 1
+        if not found:
+            raise Unsupported(f"{rel}: no threshold validator found")
+    if len(mins) != 1:
+        raise Unsupported(f"threshold validators disagree on the smallest valid value: {sorted(mins)}")
+    return (defn("threshold_options", "list (string * string)", coq_list([f"({coq_string(c)}, {coq_string(f)})" for c, f in sorted(rows)]))
+            + defn("threshold_min_valid", "Z", zlit(mins.pop())))
+
+
+def threshold_option_rows():
+    """the same table for the harness (Python side)"""
+    import re as _re
+    return _re.findall(r'\("([^"]+)", "([^"]+)"\)', threshold_options().split("threshold_min_valid")[0])
+
+
+
 ITEMS = [
     ("json_template", json_template),
     ("sarif_templates", sarif_templates),
@@ -700,4 +758,5 @@ ITEMS = [
     ("group_config_missing_exit", group_config_check),
     ("rule_exception_policy", rule_exception_policy),
     ("syntax_error_defaults", syntax_defaults),
+    ("threshold_options", threshold_options),
 ]
